@@ -94,7 +94,7 @@ def run_memberdef(ctx, st, pool):
     from mistral.utils import safe_yaml
     drv = ctx.driver()
     cases = [c for c in cut_cases(ctx, st, pool) if c[1] in ('workflows:', 'actions:')]
-    cases = cases[:ctx.n(1500, 12000)]
+    cases = cases[:ctx.n(1500, 6000)]
     cuts = drv.batch('lang.cutDef', [{'wb': t, 'sec': s, 'item': i + ':'} for t, s, i, _ in cases])
     args = []
     impl = []
